@@ -61,6 +61,7 @@ func colAlts() []colAlt {
 		{label: "Shape", typ: "Shape", declB: tblUnion},
 		{label: "Shapes", typ: "Shapes", declB: tblUnion + "\ntype Shapes []Shape\n"},
 		{label: "Drawing", typ: "Drawing", declB: tblUnion + "\ntype Drawing struct {\n\tMain  Shape\n\tMood  Mood\n\tExtra map[string]Circle\n}\n"},
+		{label: "Scene", typ: "Scene", declB: tblUnion + "\ntype Drawable interface {\n\tisDrawable()\n}\n\ntype Text struct {\n\tS string\n}\n\nfunc (Circle) isDrawable() {}\nfunc (Text) isDrawable()   {}\n\ntype Scene struct {\n\tMain  Shape\n\tExtra []Drawable\n}\n"},
 		{label: "sql.NullInt64", typ: "sql.NullInt64"},
 		{label: "sql.NullString", typ: "sql.NullString"},
 		{label: "sql.NullTime", typ: "sql.NullTime"},
@@ -141,7 +142,7 @@ func TablesWith(c explore.Chooser, defaultCol string) *prog.Program {
 	colName := s.Pick("col.name", "Slot", "slot", "SlotValue", "X")
 	fkForm := s.Pick("fk.form", "id-type-prefix", "id-type-suffix", "tag-int64", "tag-nullable", "nullable-wrapper-no-tag", "self-reference", "unknown-target")
 	onDelete := s.Pick("fk.on-delete", "", "CASCADE", "SET NULL")
-	guard := s.Pick("guard", "none", "literal", "enum-placeholder", "unexported-literal", "string-enum-placeholder")
+	guard := s.Pick("guard", "none", "literal", "enum-placeholder", "unexported-literal", "string-enum-placeholder", "literal-before-id")
 	userDir := s.Pick("user.directive", userDirectives...)
 	linkDir := s.Pick("link.directive", linkDirectives...)
 	style := s.Pick("decl.style", "separate", "grouped-spec-docs", "grouped-group-doc", "plain-comment-between", "directive-on-neighbour", "comment-after-directive")
@@ -164,6 +165,8 @@ func TablesWith(c explore.Chooser, defaultCol string) *prog.Program {
 	uf = append(uf, "\tName string", "\tRole Role", "\tMood Mood")
 	uf = append(uf, fmt.Sprintf("\t%s %s %s", colName, col.typ, colTag))
 	switch guard {
+	case "literal-before-id":
+		uf = append([]string{"\tKind int `gomacro-sql-guard:\"7\"`"}, uf...)
 	case "literal":
 		uf = append(uf, "\tKind int `gomacro-sql-guard:\"7\"`")
 	case "enum-placeholder":
